@@ -89,6 +89,34 @@ theorem fwdBlock_eq (ad : AD K) (seed : Nat → Nat → Nat → K) (nt : Nat) (s
   rw [h1, unravel_append so [nt] r c hr hc', unravel_single, splitLast_append]
   simp [ravel_unravel so r hr]
 
+/-- Iterating over the first axis of the one array of a single return value and stacking the
+reshaped pieces gives the same rows as reshaping the whole array. -/
+theorem fwdBlockSingle_eq (ad : AD K) (seed : Nat → Nat → Nat → K) (nt : Nat) (so : List Nat)
+    (u r c : Nat) (hr : r < prod so) (hc : c < nt) :
+    fwdBlockSingle ad seed nt so u r c = ad.jvp (seed c) u r := by
+  cases so with
+  | nil =>
+    have : r = 0 := by simpa [prod] using hr
+    subst this; rfl
+  | cons s0 rest =>
+    have hpos : 0 < prod rest := by
+      rcases Nat.eq_zero_or_pos (prod rest) with h | h
+      · simp [prod, h] at hr
+      · exact h
+    have hr' : r % prod rest < prod rest := Nat.mod_lt _ hpos
+    have h1 : ravel [prod rest, nt] [r % prod rest, c] = (r % prod rest) * prod [nt] + c := by
+      simp [ravel, prod]
+    have hc' : c < prod [nt] := by simpa [prod] using hc
+    simp only [fwdBlockSingle, Tensor.reshape, jacFwdTensor]
+    rw [h1, unravel_append rest [nt] _ c hr' hc', unravel_single]
+    have hs : splitLast (r / prod rest :: (unravel rest (r % prod rest) ++ [c]))
+        = (r / prod rest :: unravel rest (r % prod rest), c) := by
+      have := splitLast_append (r / prod rest :: unravel rest (r % prod rest)) c
+      simpa using this
+    rw [hs]
+    simp only [ravel, ravel_unravel rest _ hr']
+    rw [Nat.div_add_mod' r (prod rest)]
+
 /-- The 2-D reshape of the reverse block. -/
 theorem revBlock_eq (ad : AD K) (seed : Nat → Nat → Nat → K) (nc : Nat) (si : List Nat)
     (p i j : Nat) (_hi : i < nc) (hj : j < prod si) :
